@@ -5,6 +5,7 @@ package main
 import (
 	"encoding/json"
 	"fmt"
+	"strings"
 	"time"
 
 	"github.com/nsqio/nsq/internal/verif/vrt"
@@ -75,6 +76,56 @@ func init() {
 		}
 		return mr, nil
 	})
+	vx.Register("metafault", func(arg json.RawMessage) (interface{}, error) {
+		var j metaJob
+		json.Unmarshal(arg, &j)
+		var mr metaRes
+		mr.Res.Outcomes = map[string]int{}
+		mr.Res.Exhaustive = true
+		run := func(spec nsqd.MetaSpec) (*nsqd.MetaTrace, vx.Out, string) {
+			var o vx.Out
+			f := vrt.Run(func(*vrt.Thread, []vrt.Alt) int { return 0 }, 3000000, func() { o = nsqd.RunMetaScript(spec) })
+			return nsqd.LastMeta, o, f
+		}
+		// dry run: how many operations of each kind does the script perform on nsqd.dat*?
+		tr, _, f := run(j.Spec)
+		mr.Res.Runs++
+		if f != "" {
+			mr.Res.Infra = append(mr.Res.Infra, "dry run failed: "+f)
+			return mr, nil
+		}
+		counts := map[string]int{}
+		for _, ev := range tr.Events {
+			if ev.Kind == "effect" {
+				for _, k := range []string{"write", "fsync", "rename", "open"} {
+					if strings.HasPrefix(ev.Eff.Op, k) {
+						counts[k]++
+					}
+				}
+			}
+		}
+		for _, k := range []string{"write", "fsync", "rename", "open"} {
+			for nth := 1; nth <= counts[k]; nth++ {
+				sp := j.Spec
+				sp.FaultKind, sp.FaultNth = k, nth
+				tr, o, f := run(sp)
+				mr.Res.Runs++
+				if f != "" {
+					mr.Res.Found = append(mr.Res.Found, vx.Found{Sig: vx.FailSig(f) + " :: meta " + sp.String(), Detail: f, Replay: map[string]interface{}{"kind": "meta", "spec": sp, "schedule": []int{}}})
+					continue
+				}
+				jd := nsqd.JudgeMeta(tr)
+				mr.Images += jd.Images
+				mr.CrashPoints += jd.CrashPoints
+				mr.Res.Outcomes[fmt.Sprintf("%s => %s hit=%v", k, o.Obs, tr.FaultHit)]++
+				for _, v := range jd.Viol {
+					v.Replay = map[string]interface{}{"kind": "meta", "spec": sp, "schedule": []int{}}
+					mr.Res.Found = append(mr.Res.Found, v)
+				}
+			}
+		}
+		return mr, nil
+	})
 	checks["C06"] = checkC06
 }
 
@@ -99,7 +150,7 @@ func metaScripts(maxLen int) []nsqd.MetaSpec {
 
 func checkC06(tier string) int {
 	rep := vx.NewReport("C06", tier, "fault_enumeration")
-	rep.Rule = "E4: every script of <= N admin operations (create/delete/pause/unpause of topics and channels, durable and ephemeral, over the real HTTP handlers) (+ scripts whose last step is two requests in flight at once: identical, conflicting, create vs delete) x every schedule with <= d deviations (E2) x every prefix of the file-effect log of nsqd.dat* x loss variants of unsynced data (all / none / torn); each image is loaded by the real New+LoadMetadata (+ a second restart cycle). distinct = distinct (script, answer codes) outcomes; evaluations = images judged"
+	rep.Rule = "E4: every script of <= N admin operations (create/delete/pause/unpause of topics and channels, durable and ephemeral, over the real HTTP handlers) (+ scripts whose last step is two requests in flight at once: identical, conflicting, create vs delete) x every schedule with <= d deviations (E2) x every prefix of the file-effect log of nsqd.dat* x loss variants of unsynced data (all / none / torn); each image is loaded by the real New+LoadMetadata (+ a second restart cycle); plus, for the scripts of <= 2 steps, every write / fsync / rename / open of nsqd.dat* failing in turn (short write + ENOSPC) followed by every crash point. distinct = distinct (script, answer codes) outcomes; evaluations = images judged"
 	rep.Assumptions = []string{"rename/unlink are atomic and durable once returned (no directory fsync modelled)", "unsynced written data may be fully present, fully lost, or torn in the middle", "idle = quiescence of every daemon goroutine"}
 	maxLen, bound, secs := 2, 1, 20
 	if tier == "thorough" {
@@ -155,6 +206,39 @@ func checkC06(tier string) int {
 			rep.Violation(f)
 		}
 	})
+	// I/O faults: every write / fsync / rename / open of nsqd.dat* in turn fails (a full disk:
+	// short write of half the data + ENOSPC), default schedule; every crash point afterwards
+	var fargs []interface{}
+	var fspecs []nsqd.MetaSpec
+	for _, s := range specs {
+		if len(s.Steps) <= 2 || (len(s.Steps) == 3 && !strings.Contains(s.String(), "||") && tier == "thorough") {
+			fspecs = append(fspecs, s)
+			fargs = append(fargs, metaJob{Spec: s})
+		}
+	}
+	fRuns := 0
+	vx.Par("metafault", fargs, func(i int, res json.RawMessage, errStr, crash string) {
+		if crash != "" || errStr != "" {
+			rep.InfraError(fmt.Sprintf("meta fault %s: %s%s", fspecs[i], crash, errStr))
+			return
+		}
+		var r metaRes
+		json.Unmarshal(res, &r)
+		images += r.Images
+		crashPts += r.CrashPoints
+		fRuns += r.Res.Runs
+		for o, n := range r.Res.Outcomes {
+			rep.Outcomes[fspecs[i].String()+" fault "+o] += n
+		}
+		for _, s := range r.Res.Infra {
+			rep.InfraError(fspecs[i].String() + ": " + s)
+		}
+		for _, f := range r.Res.Found {
+			rep.Violation(f)
+		}
+	})
+	rep.Extra["io_fault_runs"] = fRuns
+	rep.Notes = append(rep.Notes, "observation outside this property (I/O errors are not kills): doPauseTopic/doPauseChannel ignore the error returned by PersistMetadata, so with a failing disk a pause/unpause is answered 200 although it was not persisted; under injected I/O faults only 'complete, loadable document at every instant' and 'a state the daemon passed through' are judged")
 	rep.Evaluations = images
 	rep.Extra["scripts"] = len(specs)
 	rep.Extra["schedules_executed"] = runs
